@@ -34,6 +34,7 @@ RULE += ("; added after the mutation rounds: 2-bin runs with a 2600-step first i
 RULE += ("; round 5: thresholds at or above the starting f (no step expected); 6-7 residue chains with few arrangements (proposals identical to the current sequence); requested ranges not aligned to any equal partition")
 RULE += ("; round 6: a wall clock that jumps by hours or days between readings on a third of the runs; another machine set up on the same output directory before the run")
 RULE += ("; round 8: chains of 31-40 residues; flatness criterion exactly 1; machines taken from a SequencePermutants front end that had been initialised with other settings")
+RULE += ("; round 9: 50 / 100 bins with lower edges 0.29, 0.57, 0.58; check periods 41, 64, 128, 150, 250, 256, 333; 8-residue chains over 10 bins (unreachable bins) checked every 3-5 steps")
 EXHAUSTIVE = {"quick": False, "thorough": False}
 ASSUMPTIONS = [
     "bin centres are (i+1/2)/M; a proposal is in range iff its bin index lies in [a, b-1] for the requested range [a/M, b/M]",
